@@ -122,11 +122,13 @@ Definition unpickle_str (w : world) (x : str) : result pyv :=
   | None => outside_schema               (* a recorded path outside <run_folder>/inputs|defaults: not modelled *)
   end.
 
-(* ---------- RunInfo.__post_init__ : dump run_info.json, every input, the defaults ---------- *)
+(* ---------- RunInfo.__post_init__ ---------- *)
+(* every input, then the defaults, and LAST run_info.json: an existing run_info.json implies that the files it refers to
+   are complete.  Each file is written to a temporary name and moved into place (os.replace): one atomic step here. *)
 Definition post_init (w : world) (ri : run_info) (inputs : list (str * pyv)) (defaults : pyv) : world :=
-  let w1 := write w PRunInfo (Json (encode ri)) in
-  let w2 := fold_left (fun acc kv => write acc (PInput (fst kv)) (Pickled (snd kv))) inputs w1 in
-  write w2 PDefaults (Pickled defaults).
+  let w1 := fold_left (fun acc kv => write acc (PInput (fst kv)) (Pickled (snd kv))) inputs w in
+  let w2 := write w1 PDefaults (Pickled defaults) in
+  write w2 PRunInfo (Json (encode ri)).
 
 (* ---------- RunInfo.load ---------- *)
 Record loaded_info := { li_info : run_info; li_inputs : list (str * pyv); li_defaults : pyv }.
@@ -172,15 +174,18 @@ Definition init_array (w : world) (k : skind) (o : str) (sh : list nat) (mask : 
   match k with
   | FileArrayK => Ok (SFileArr o sh mask, mkdir w o)
   | DictK | SharedDictK =>
-      (* DictArray.load (also for SharedMemoryDictArray): self._dict = load(path), a plain dict since persist dumps
-         dict(self._dict) *)
-      if dir_exists w o then
-        do pv <- unpickle w (PDictFile o);
-        match pv with
-        | PDict d => Ok (SDictArr o sh mask d, w)
-        | _ => outside_schema
-        end
-      else Ok (SDictArr o sh mask [], w)
+      (* DictArray.load (also for SharedMemoryDictArray): nothing to load unless dict_array.cloudpickle is a file
+         (an existing folder without it is tolerated: all elements missing); otherwise self._dict = load(path),
+         a plain dict since persist dumps dict(self._dict) *)
+      match fs_get (w_files w) (PDictFile o) with
+      | None | Some Dir => Ok (SDictArr o sh mask [], w)
+      | Some _ =>
+          do pv <- unpickle w (PDictFile o);
+          match pv with
+          | PDict d => Ok (SDictArr o sh mask d, w)
+          | _ => outside_schema
+          end
+      end
   end.
 
 Definition store_t := list (str * sitem).
